@@ -297,6 +297,27 @@ def run(prog, rep, tier):
                     if any(bb in r for bb, _, _ in all_oks):
                         ok = False
         rep.ob('R20.4', ok, key, 'Ok only on callback status 0; any other status becomes an io::Error' if ok else 'adapter can return Ok although the callback reported a failure', body.loc(cb.idx))
+        # a callback invoked in a loop (the adapter drains the buffer itself) must be given the part of the buffer not handed over yet: its data pointer
+        # depends on the running count
+        if name in ('write', 'read') and cb.idx in body.loop_blocks():
+            outc = set()
+            for a in cb.term.args:
+                if a.place is not None and is_rawptr(body.lty(a.place[0])):
+                    o = origins(body, [a.place[0]], through_calls=False)
+                    outc |= {l for l in o.locals if body.lty(l) in ('u32', 'u64', 'usize')}
+            accs = set()
+            for bl in body.blocks:
+                for st in bl.stmts:
+                    if st.kind == 'assign' and st.rv.r == 'binop' and st.rv.j['op'].startswith('Add') and not st.place[1]:
+                        ls = [op.place[0] for op in st.rv.ops if op.place is not None]
+                        if any(origins(body, [l], through_calls=True).locals & outc for l in ls):
+                            accs |= set(ls) | forward_locals(body, [st.place[0]], through_calls=False)
+            pa = cb.term.args[0]
+            po = origins(body, [pa.place[0]], through_calls=True).locals if pa.place is not None else set()
+            adv = bool(po & accs)
+            rep.ob('R20.4', adv, 'R20.4|%s|looped-callback-advances' % body.nkey, 'the data pointer handed to the callback advances with the count already transferred' if adv else
+                   'the callback is invoked in a loop with a data pointer that does not depend on the count already transferred: after a partial transfer the same bytes '
+                   'are handed over again', body.loc(cb.idx))
         if name in ('write', 'read', 'seek') and oks:
             # the Ok payload is the out-parameter the callback filled
             outl = None
